@@ -115,8 +115,13 @@ impl Watch {
                     return Expect::Refuse(true);
                 }
                 if p.topic.is_empty() && !m.peer_alias.contains_key(&a) {
-                    // not connected: the library's table was dropped with the connection
-                    return Expect::Refuse(true);
+                    if !connected && m.app_alias.contains_key(&a) {
+                        // bound by a publish that was only queued: it may be resolved and queued
+                        // as well (the stored copy carries the full topic), or refused
+                        either = true;
+                    } else {
+                        return Expect::Refuse(true);
+                    }
                 }
             } else if p.topic.is_empty() {
                 return Expect::Refuse(true);
@@ -393,7 +398,10 @@ impl Watch {
         use wire::*;
         let sends: Vec<(&Pkt, usize)> = evs.iter().filter_map(|e| if let Ev::Send { pkt, bytes, .. } = e { Some((pkt, bytes.len())) } else { None }).collect();
         // intended topic
-        let intended = if !p.topic.is_empty() { p.topic.clone() } else { p.alias().and_then(|a| self.m.peer_alias.get(&a).cloned()).unwrap_or_default() };
+        let intended = if !p.topic.is_empty() { p.topic.clone() } else { p.alias().and_then(|a| self.m.peer_alias.get(&a).or(self.m.app_alias.get(&a)).cloned()).unwrap_or_default() };
+        if let (Some(a), false) = (p.alias(), p.topic.is_empty()) {
+            self.m.app_alias.insert(a, p.topic.clone());
+        }
         if connected {
             if sends.len() != 1 || sends[0].0.kind != PUBLISH {
                 self.flag(&["C11", "C06"], "accepted-but-not-sent/PUBLISH", format!("{what}: accepted while connected but not requested for sending: {}", evs_short(evs)));
@@ -786,6 +794,7 @@ impl Watch {
             self.m.tam_recv = 0;
             self.m.peer_alias.clear();
             self.m.local_alias.clear();
+            self.m.app_alias.clear();
             if evs.iter().any(|e| matches!(e, Ev::Send { .. } | Ev::Close | Ev::Recv { .. })) {
                 self.flag(&["C05", "C19"], "notify-closed-side-effect", format!("{what}: {}", evs_short(&evs)));
                 return evs;
@@ -1011,6 +1020,85 @@ impl Watch {
         } else {
             self.lenient_resync();
         }
+    }
+}
+
+/// What survives a crash, together with the part of the model that describes it.
+pub struct Durable {
+    pub export: Export,
+    pub store: Vec<StoreEnt>,
+    pub out: Vec<Out>,
+    pub inq2: BTreeSet<u32>,
+}
+
+impl Watch {
+    /// The process dies: the export is taken, the object is replaced by a fresh one that
+    /// knows nothing (a broker creates a new connection object per accepted transport).
+    pub fn crash_take(&mut self) -> Option<Durable> {
+        if self.failed() {
+            return None;
+        }
+        let what = "crash(export taken, fresh object)".to_string();
+        let role = self.role;
+        let ver0 = self.ver0;
+        let pid32 = self.pid32;
+        let opts = self.opts.clone();
+        let user_ms = self.m.user_ms;
+        let r = self.guarded(&what, &["C16"], move |ep| {
+            let ex = ep.export(ExportMangle::None);
+            let mut n = new_endpoint(role, ver0, pid32);
+            n.set_auto_pub_response(opts.auto_pub);
+            n.set_auto_ping_response(opts.auto_ping);
+            n.set_auto_map(opts.auto_map);
+            n.set_auto_replace(opts.auto_replace);
+            if opts.offline {
+                n.set_offline_publish(true);
+            }
+            if opts.pingresp_to_ms != 0 {
+                n.set_pingresp_recv_timeout(opts.pingresp_to_ms);
+            }
+            if user_ms.is_some() {
+                n.set_pingreq_send_interval(user_ms);
+            }
+            (ex, n)
+        });
+        let (ex, n) = r?;
+        self.ep = n;
+        self.note(what);
+        self.stats.hit("crash_restore");
+        let stored_ids: BTreeSet<u32> = self.m.store.iter().map(|s| s.id).collect();
+        let mut out: Vec<Out> = self.m.out.iter().filter(|o| stored_ids.contains(&o.id)).cloned().collect();
+        for o in out.iter_mut() {
+            o.conn = 0;
+        }
+        let d = Durable { export: ex, store: self.m.store.clone(), out, inq2: self.m.inq2.clone() };
+        let user = self.m.user_ms;
+        let conn_no = self.m.conn_no;
+        self.m = Model::new(self.role, self.ver0);
+        self.m.user_ms = user;
+        self.m.conn_no = conn_no;
+        self.rx.clear();
+        self.want_close = false;
+        Some(d)
+    }
+
+    /// The application found the session of the client that just connected and restores it.
+    pub fn restore_durable(&mut self, d: &Durable) {
+        if self.failed() {
+            return;
+        }
+        let what = "restore(export)".to_string();
+        if self.guarded(&what, &["C16"], |ep| ep.restore(&d.export)).is_none() {
+            return;
+        }
+        self.note(what.clone());
+        for s in &d.store {
+            self.m.ids.insert(s.id);
+        }
+        self.m.store = d.store.clone();
+        self.m.out = d.out.clone();
+        self.m.inq2 = d.inq2.clone();
+        self.sync(&what, false);
     }
 }
 
